@@ -4,6 +4,7 @@ package c02
 
 import (
 	"fmt"
+	"regexp"
 	"runtime/debug"
 	"time"
 
@@ -205,6 +206,7 @@ func (w *wk) execAttrCase(cs *Case) {
 		w.st.Outcome("attr:error")
 	} else {
 		w.st.Outcome("attr:value")
+		w.st.Nontrivial++
 	}
 }
 
@@ -277,6 +279,11 @@ func (w *wk) invoke(cl *callable, args, kwv []int, kwn []string, ctr *int) (v st
 	return v, err, steps
 }
 
+// bindingErrRE recognises failures raised while binding arguments to
+// parameters (arity, unknown or repeated keyword); such cases are judged but
+// not counted as non-trivial.
+var bindingErrRE = regexp.MustCompile(`got \d+ arguments?|missing argument|unexpected keyword|accepts no|does not accept|got multiple values|takes exactly|takes at most|takes at least`)
+
 func (w *wk) execCall(cl *callable, cs *Case, isReplay bool) {
 	args, kwv := w.poolIdx(cs.Args), w.poolIdx(cs.KwV)
 	debug.SetMaxStack(smallStack)
@@ -294,7 +301,6 @@ func (w *wk) execCall(cl *callable, cs *Case, isReplay bool) {
 			rep := cl.rep && len(args) == 1 && len(kwv) == 0
 			if !rep && !isReplay {
 				w.st.Evals--
-				w.st.Nontrivial--
 				w.st.Count("level_cases:"+w.level, -1)
 				w.st.Count("skipped_heavy: "+w.e.caseKey(cs), 1)
 				w.st.Count("cases_skipped_walks_range_2^62", 1)
@@ -320,9 +326,14 @@ func (w *wk) execCall(cl *callable, cs *Case, isReplay bool) {
 	if err != nil {
 		w.st.Outcome("call:" + cl.fn + ":error")
 		w.st.Count("calls_returned_error", 1)
+		if !bindingErrRE.MatchString(err.Error()) {
+			w.st.Nontrivial++
+			w.st.Count("calls_failed_past_argument_binding", 1)
+		}
 	} else {
 		w.st.Outcome("call:" + cl.fn + ":" + v.Type())
 		w.st.Count("calls_returned_value", 1)
+		w.st.Nontrivial++
 		if w.executed%50021 == 1 {
 			w.st.Sample(map[string]any{"case": cs, "result_type": v.Type()})
 		}
